@@ -4,6 +4,6 @@
 PATCH=$(readlink -f "$1"); PID=$2; shift; shift
 RC_DIR=$(mktemp -d /tmp/rc.XXXXXX)
 rsync -a --exclude=.git /repo/ "$RC_DIR"/ && (cd "$RC_DIR" && patch -p1 -s < "$PATCH") || { echo "PATCH DOES NOT APPLY"; rm -rf "$RC_DIR"; exit 3; }
-cd /verif; VERIF_REPO=$RC_DIR PYTHONPATH=$RC_DIR ./bin/check $PID --no-evidence "$@" > /tmp/seededcopy_$PID.log 2>&1; RC=$?
+cd /verif; VERIF_REPO=$RC_DIR PYTHONPATH=$RC_DIR ./bin/check $PID --no-evidence "$@" > /tmp/seededcopy_$(basename $(dirname $PATCH))_$PID.log 2>&1; RC=$?
 rm -rf "$RC_DIR"
-echo "$(basename $(dirname $PATCH)) on $PID: exit=$RC $(grep -c '^VIOLATION' /tmp/seededcopy_$PID.log) violation lines; $(tail -1 /tmp/seededcopy_$PID.log)"
+echo "$(basename $(dirname $PATCH)) (scratch copy) on $PID: exit=$RC $(grep -c '^VIOLATION' /tmp/seededcopy_$(basename $(dirname $PATCH))_$PID.log) violation lines; $(tail -1 /tmp/seededcopy_$(basename $(dirname $PATCH))_$PID.log)"
